@@ -43,37 +43,51 @@ extern "C" void harness_c20_bsearch() {
 }
 
 // ---- get_wrapper_by_unique_name: total for names of ANY length (0..KLEN) and content; exact on a one-module database.
+// Compositional: binary_search_wrapper_hash is decided on its own by harness_c20_bsearch above; here its real body
+// is cut and replaced by a contract stub that records its arguments and returns any result it could return
+// (-1 or an offset), so that the query below covers the splitting of the name, the module lookup by hash and the
+// index arithmetic for every possible outcome of the search.
 #ifndef KLEN
 #define KLEN 7
 #endif
 #ifndef UMAX
 #define UMAX 2
 #endif
+static int g_calls;
+static InterrogateUniqueNameDef *g_begin, *g_end;
+static char g_name[KLEN + 1];
+static int g_namelen;
+static int g_result;
+#ifdef CUT_BSEARCH
+int InterrogateDatabase::binary_search_wrapper_hash(InterrogateUniqueNameDef *begin, InterrogateUniqueNameDef *end,
+                                                    const std::string &wrapper_hash_name) {
+  g_calls++;
+  g_begin = begin; g_end = end;
+  g_namelen = (int)wrapper_hash_name.size();
+  for (int i = 0; i < KLEN; i++) g_name[i] = (i < g_namelen) ? wrapper_hash_name[i] : 0;
+  return g_result;
+}
+#endif
+
 extern "C" void harness_c20_by_unique_name() {
-  static char names[UMAX][3];
-  static InterrogateUniqueNameDef table[UMAX];
+  static InterrogateUniqueNameDef table[UMAX + 1];
   static InterrogateModuleDef def;
   int n = nondet_int();
   ASSUME(n >= 0 && n <= UMAX);
-  for (int i = 0; i < UMAX; i++) {
-    char a = nondet_char(), b = nondet_char();
-    ASSUME(a >= 'a' && a <= 'c' && b >= 'a' && b <= 'c');
-    names[i][0] = a; names[i][1] = b; names[i][2] = 0;
-    table[i].name = names[i];
-    table[i].index_offset = i;
-  }
-  for (int i = 0; i + 1 < n; i++) ASSUME(lt2(names[i], names[i + 1]));
   int first = nondet_int();
   ASSUME(first >= 1 && first <= 1000000);
+  g_result = nondet_int();
+  ASSUME(g_result >= -1 && g_result <= 1000000);
+  g_calls = 0;
   def.library_name = "libx";
   def.library_hash_name = "LIBX";
   def.unique_names = table;
   def.num_unique_names = n;
   def.first_index = first;
-  def.next_index = first + UMAX;
+  def.next_index = first + 1000001;
   InterrogateDatabase *db = new InterrogateDatabase;
   db->_modules_by_hash[std::string("LIBX")] = &def;       // what request_module does for a module with unique names
-  // the queried name: any byte string of length 0..KLEN (the C interface passes any NUL-terminated string)
+  // the queried name: any NUL-free byte string of length 0..KLEN (the C interface passes any NUL-terminated string)
   int klen = nondet_int();
   ASSUME(klen >= 0 && klen <= KLEN);
   char kb[KLEN + 1];
@@ -81,10 +95,16 @@ extern "C" void harness_c20_by_unique_name() {
   kb[klen] = 0;
   std::string key(kb);
   int r = db->get_wrapper_by_unique_name(key);
-  int ref = 0;
-  if (klen == 6 && kb[0] == 'L' && kb[1] == 'I' && kb[2] == 'B' && kb[3] == 'X')
-    for (int i = 0; i < n; i++)
-      if (names[i][0] == kb[4] && names[i][1] == kb[5]) ref = first + i;
-  ASSERT(r == ref, "C20 get_wrapper_by_unique_name returns first_index+offset of the named wrapper, 0 for every other string");
+  bool lib = klen >= 4 && kb[0] == 'L' && kb[1] == 'I' && kb[2] == 'B' && kb[3] == 'X';
+  if (!lib) {
+    ASSERT(r == 0, "C20 get_wrapper_by_unique_name: a name of an unknown library (any length, any content) returns 0");
+    ASSERT(g_calls == 0, "C20 get_wrapper_by_unique_name: no table is searched for an unknown library");
+  } else {
+    ASSERT(g_calls == 1 && g_begin == table && g_end == table + n, "C20 get_wrapper_by_unique_name searches exactly the module's unique-name table");
+    bool same = g_namelen == klen - 4;
+    for (int i = 0; i < KLEN - 4; i++) if (i < klen - 4 && g_name[i] != kb[4 + i]) same = false;
+    ASSERT(same, "C20 get_wrapper_by_unique_name searches for the name after the 4-character library hash");
+    ASSERT(r == (g_result >= 0 ? first + g_result : 0), "C20 get_wrapper_by_unique_name returns first_index+offset when found, 0 when absent");
+  }
   WITNESS();
 }
